@@ -681,6 +681,11 @@ class Engine:
                     wr = z3.K(I, z3.BoolVal(True)) if obj.ndim == 1 else z3.K(I, z3.K(I, z3.BoolVal(True)))
                 st.vars[recv.id] = obj.with_term(term, wr)
                 return None
+            if isinstance(obj, SArr) and f.attr == "add" and not spec and isinstance(recv, ast.Name) and obj.ndim == 1:
+                # a set of small integers modelled as characteristic array
+                k = to_num(self.ev(e.args[0], st, spec, ctx))
+                st.vars[recv.id] = obj.with_term(z3.Store(obj.term, k, z3.IntVal(1)))
+                return None
             if isinstance(obj, (SSlice, SView, SArr)) and f.attr in ("min", "max") and not e.args:
                 return self.reduce_minmax(obj, f.attr, st, spec, unparse(e))
             raise OutOfSubset(f"method {ast.unparse(f)}")
@@ -784,6 +789,10 @@ class Engine:
             if "old" not in ctx:
                 raise ContractError("old() outside a two-state clause")
             return self.ev(e.args[0], State(ctx["old"], st.guard), True, ctx)
+        if name == "prev":      # prev(e): value before a summarised statement
+            if "prev" not in ctx:
+                raise ContractError("prev() outside a summary")
+            return self.ev(e.args[0], State(ctx["prev"], st.guard), True, ctx)
         if name == "at_loop":
             if "at_loop" not in ctx:
                 raise ContractError("at_loop() outside a loop invariant")
@@ -1061,11 +1070,20 @@ class Engine:
         if key is not None and key[6:] in self.c.summaries:
             sm = self.c.summaries[key[6:]]
             self._seen_keys.add(key[6:])
+            rse = []
+            if sm.raises_if is not None:
+                rc = to_bool(self.ev(ast.parse(sm.raises_if, mode="eval").body, st, True, self.spec_ctx()))
+                rs_ = st.copy(zand(st.guard, rc))
+                rs_.raise_label = key[6:]
+                rse.append(rs_)
+                st.guard = zand(st.guard, z3.Not(rc))
+            prev = dict(st.vars)
             for n, t in sm.binds.items():
                 st.vars[n] = self.mk_param(f"{n}!{next(_fresh)}", t)
             for a in sm.assume:
-                self.fact(to_bool(self.ev(ast.parse(a, mode="eval").body, st, True, self.spec_ctx())), st.guard)
+                self.fact(to_bool(self.ev(ast.parse(a, mode="eval").body, st, True, dict(self.spec_ctx(), prev=prev))), st.guard)
             self.used_summaries.append((key[6:], sm))
+            none["rse"] = rse
             return none
         m = getattr(self, "st_" + type(s).__name__, None)
         if m is None:
@@ -1254,6 +1272,7 @@ class Engine:
         return self.out(None, cont=[st])
 
     def st_Raise(self, s, st):
+        st.raise_label = f"{self.stmt_label(s)}:{unparse(s.exc)[:40] if s.exc is not None else ''}"
         return self.out(None, rse=[st])
 
     def st_Assert(self, s, st):
@@ -1342,9 +1361,9 @@ class Engine:
                         names.add(x.id)
                     if isinstance(x, ast.Subscript) and isinstance(x.value, ast.Name):
                         arrays.add(x.value.id)
-            if isinstance(node, ast.Call) and isinstance(node.func, ast.Attribute) and node.func.attr == "fill" \
+            if isinstance(node, ast.Call) and isinstance(node.func, ast.Attribute) and node.func.attr in ("fill", "add") \
                     and isinstance(node.func.value, ast.Name):
-                arrays.add(node.func.value.id)
+                arrays.add(node.func.value.id)      # in-place modification through a method call
         return names, arrays
 
     def ghost_assigned(self, lp, loop_stmt):
@@ -1517,7 +1536,7 @@ class Engine:
             end.vars[cvar] = k + 1
             if evar:
                 end.vars.pop(evar, None)
-            extra = self.lemma_instances(lp.lemmas, end, ictx)
+            extra = self.lemma_instances(lp.lemmas, end, dict(ictx, at_iter=it_env))
             for cl in lp.inv:
                 g = to_bool(self.ev(cl.ast, end, True, ictx))
                 self.emit("inv-pres", f"loop{ordn}:{cl.label}", g, end.guard, cl.props, extra=extra)
@@ -1531,8 +1550,11 @@ class Engine:
             ex.vars.pop(evar, None)
         exits = [ex] + r["brk"]
         out = self.out(self.merge(exits), ret=r["ret"], rse=r["rse"])
-        for lm in self.lemma_instances(lp.lemmas, out["normal"], ictx):
-            self.fact(lm)
+        for text in lp.lemmas:
+            if "at_iter" in text:
+                continue          # two-state lemma instances are only meaningful at the end of an iteration
+            for lm in self.lemma_instances([text], out["normal"], ictx):
+                self.fact(lm)
         return out
 
     def st_While(self, s, st):
@@ -1670,6 +1692,8 @@ class Engine:
         for nn in self.flat(r["normal"]):
             rets.append((nn, None))
         for n, (rs, rv) in enumerate(rets):
+            # vacuity: the hypotheses collected on the way to this return must not be contradictory
+            self.emit("cover", f"ret{n}", z3.BoolVal(True), rs.guard, frozenset(), expect="sat")
             ctx = {"old": self.entry, "result": rv}
             extra = self.lemma_instances(self.c.lemmas_at.get("post", []), rs, ctx)
             for cl in self.c.ensures:
@@ -1679,6 +1703,9 @@ class Engine:
                 g = to_bool(self.ev(cl.ast, rs, True, ctx))
                 self.emit("must_fail", f"ret{n}:{cl.label}", g, rs.guard, frozenset(), expect="fail")
         self.raise_states = r["rse"]
+        if self.c.no_raise:
+            for n_, rs in enumerate(r["rse"]):
+                self.emit("noraise", f"raise{n_}@{getattr(rs, 'raise_label', '?')}", z3.Not(rs.guard), None, self.c.props)
         if self.c.raises_iff is not None:
             cond = to_bool(self.ev(ast.parse(self.c.raises_iff, mode="eval").body, State(self.entry, None), True, {}))
             rg = z3.Or(*[x.guard for x in r["rse"]]) if r["rse"] else z3.BoolVal(False)
